@@ -16,7 +16,7 @@ EXTRACT = ["C11"]
 BINS = ["c11"]
 NEEDS_CICADA = True
 ALLOWED_AXIOMS = []
-PINNED = ["C11_full", "C11_refuted", "C11_splices", "C11_partial", "C11_unplannable", "C11_terminates", "C11_output_not_globbed",
+PINNED = ["C11_full", "C11_refuted", "C11_splices", "C11_splices_whole_word", "C11_index_buffer", "C11_partial", "C11_unplannable", "C11_terminates", "C11_output_not_globbed",
           "C11_refuted_whitespace"]
 TRUSTED = [
     "Coq 8.16.1 kernel (coqc; coqchk in thorough); vm_compute only in concrete witnesses / non-vacuity examples",
@@ -125,6 +125,16 @@ def run(ctx, res):
             c2, n2 = cmd(0)
             merged = "%s)$(%s" % (c1, c2)
             cases.append(([("", "echo"), ("", "$(%s)$(%s)" % (c1, c2))], [(merged, n1 + ")$(" + csub, o)], "merge", None))
+        # text of the word OUTSIDE the regex match must survive the splice: a literal dollar before / after the
+        # substitution (the head group cannot hold one), a newline before / after it (the tail group stops there)
+        for i in (0, 6, 18):
+            o = OUTS[i]
+            for head, tail, tags in [("US$", "", ["", '"']), ("$ ", "", ['"']), ("cost: $ ", "!", ["", '"']), ("a$b", "c$", ["", '"']),
+                                     ("$", "$", ["", '"']), ("", "$ x", ['"']), ("5$ + ", " = $", ['"']),
+                                     ("l1\n", "", ['"']), ("", "\nl2", ['"']), ("l1\n$ ", ".t\nl3\nl4", ['"']), ("p", "q\n", ['"', ""])]:
+                for tg in tags:
+                    c, cnt = cmd(i)
+                    cases.append(([("", "echo"), (tg, "%s$(%s)%s" % (head, c, tail)), ("", "z")], [(c, cnt, o)], "dollar", (head, tail, 1)))
         bad = "ls >"
         for toks in [[("", "echo"), ("`", bad), ("`", cmd(0)[0]), ("", "z")], [("", "echo"), ("", "a`%s`b`%s`c" % (cmd(0)[0], bad))],
                      [("", "echo"), ("", "a`%s`b" % bad)]]:
@@ -310,6 +320,10 @@ def run(ctx, res):
         # ------------------------------------------------------------ L2
         hp = os.path.join(ctx.helpers, "hp")
         l2 = []
+        for head, tail, pre in [("cost: $ ", "!", ""), ("$P", "", "P='US$'; "), ("a", "\nb", ""), ("l1\n$ ", ".t\nl3", "")]:
+            c, cnt = cmd(0)
+            hv = head.replace("$P", "US$")
+            l2.append(('%s%s @o "%s$(%s)%s" k' % (pre, hp, head, c, tail), [hv + strip_nl(OUTS[0]) + tail, "k"], cnt, OUTS[0], "dollar"))
         for i in range(len(gouts)):
             c, cnt = gcmd(i)
             l2.append(('%s @o $(%s) k' % (hp, c), [strip_nl(gouts[i]), "k"], cnt, gouts[i], "dollar"))
